@@ -39,11 +39,18 @@ def make_pool(rnd, n):
     texts = [t for t, ts in corpus_texts()]
     rnd.shuffle(texts)
     pool = []
-    extra = ["9-5", "tomorrow 9-5", "call mom tomorrow 8pm #family", "xyzzy", "", "lunch friday 12-13 #work #food", "8", "at 8 on monday"]
+    extra = ["9-5", "tomorrow 9-5", "call mom tomorrow 8pm #family", "xyzzy", "", "lunch friday 12-13 #work #food", "8", "at 8 on monday",
+             # streams that share lexemes (a value object shared between streams shows only then)
+             "um mitternacht", "midnight tomorrow", "am 27.10. gegen mitternacht", "heute", "heute 8 uhr", "noon", "tomorrow noon", "monday", "on monday"]
     for i, t in enumerate(extra + texts[:n]):
         pool.append({"text": t, "ts": [2018, 3, 7, 12, 43] if i % 3 else [2020, 2, 29, 23, 59], "kind": "gen" if i % 2 else "single",
                      "depth": [10, 1, 10, 0][i % 4] if len(t) < 12 else 10, "latent": i % 2 if i % 5 else 1,
                      "rel": [1.0, 1.0, 0.5][i % 3], "scorer": ["shipped", "dummy", "random"][i % 3], "seed": i})
+    for c in pool:
+        if c["text"] in ("um mitternacht", "midnight tomorrow", "am 27.10. gegen mitternacht", "heute", "heute 8 uhr", "noon", "tomorrow noon", "monday", "on monday"):
+            c["kind"] = "gen"
+            c["scorer"] = "shipped"
+            c["depth"] = 10
     return pool
 
 
